@@ -308,10 +308,14 @@ def descriptors():
     import io
     for name, kinds in (('trprint', ['T3']), ('trprint', ['R3']), ('trprint', ['T3z']), ('trprint', ['R3z']), ('trprint', ['T3u']), ('trprint', ['R3u']), ('trprint2', ['T2']), ('trprint2', ['R2']), ('trprint2', ['T2z']),
                         ('trprint2', ['R2z'])):
-        for kw in ({}, {'orient': 'eul'}, {'orient': 'angvec'}, {'unit': 'rad'}, {'label': 'T'}):
+        for kw in ({}, {'orient': 'eul'}, {'orient': 'angvec'}, {'unit': 'rad'}, {'label': 'T'}, {'fmt': '{:.4f}'}, {'fmt': '{:.2g}', 'unit': 'rad'}, {'degsym': False},
+                   {'orient': 'eul', 'fmt': '{:.3f}'}, {'orient': 'eul', 'degsym': False}):
             if name == 'trprint2' and 'orient' in kw:
                 continue
-            ff = (lambda name, kw: (lambda T: getattr(b, name)(T, file=io.StringIO(), **kw)))(name, kw)
+            def ff(T, name=name, kw=kw):
+                f = io.StringIO()
+                r = getattr(b, name)(T, file=f, **kw)
+                return (r, f.getvalue())            # what was written is part of the answer
             out.append(D('base.%s/%s/%s' % (name, ','.join(kinds), ','.join('%s=%s' % kv for kv in kw.items())), ff, kinds, {}, site='base.' + name))
     def quiet(f):
         def g(*a):
@@ -419,6 +423,11 @@ def descriptors():
     pairs += [('s', k) for k in ('SO3', 'SE3', 'SE2', 'UQ', 'Q', 'Tw3', 'Tw2')]
     pairs += [('SO3', 'v3'), ('SE3', 'v3'), ('SE3', 'pts3'), ('SO2', 'v2'), ('SE2', 'v2'), ('UQ', 'v3'), ('UDQ', 'v3'), ('SE3*', 'v3'), ('SE3', 'PL'), ('SE3', 'SV'), ('SE3', 'SF'),
               ('Tw3', 'SE3'), ('Tw2', 'SE2'), ('SI', 'SA'), ('SI', 'SV'), ('SV', 'SA'), ('SV', 'SF'), ('Q', 'UQ'), ('UQ', 'Q'), ('SE3', 'T3'), ('SO3', 'R3')]
+    # a NumPy array on the LEFT (NumPy defers to the reflected methods of the library classes)
+    left_arrays = [('T3', 'SE3'), ('R3', 'SO3'), ('T2', 'SE2'), ('R2', 'SO2'), ('T3', 'SE3*'), ('v3', 'SO3'), ('v3', 'SE3'), ('v2', 'SE2'), ('pts3', 'SE3'), ('v4', 'Q'), ('v4', 'UQ'), ('v6', 'Tw3'),
+                   ('R3', 'UQ'), ('T3', 'Tw3')]
+    for (lk, rk), (on, of) in itertools.product(left_arrays, BIN):      # binary forms only: `list += obj` is Python's own list.extend
+        out.append(D('op %s/%s,%s' % (on, lk, rk), of, [lk, rk], site='operator' + on))
     for (lk, rk), (on, of) in itertools.product(pairs, BIN):
         out.append(D('op %s/%s,%s' % (on, lk, rk), of, [lk, rk], site='operator' + on))
     for (lk, rk), (on, of) in itertools.product(pairs, AUG):
